@@ -24,6 +24,12 @@ CHECKS = {
     "C11": ("CrossHair/z3 exploration with a symbolic crash point: torn user-block write at every cut through the real IH5UserBlock.load/_open, and simulated process death at every mutating file-system primitive during create/fill/commit of a patch through the real IH5Record/IH5MFRecord; byte identity of committed files + three-way outcome oracle",
             "trusted: substrate with crash injection; prefix model of the user-block write; SHA-256 idealised; kills inside HDF5 library writes and fsync/reordering effects are outside; torn-write counterexamples replayed on real h5py files",
             "4/C11"),
+    "C06": ("CrossHair/z3 exploration of all bounded sequences of container actions (symbolic action choices realised by solver-driven branching) on the real MetadorContainer/MetadorMeta/TOCLinks/TOCSchemas/TOCPackages stack over the in-memory substrate, both drivers, with patch boundaries and reopen points; after every action raw-tree bookkeeping invariants + reference model; counterexamples replayed on real h5py files",
+            "trusted: substrate (conformance-tested); the real code runs natively once choices are concrete (the TOC stack cannot be traced by CrossHair: DESIGN 9); bounds: 26 actions, sequences of 3 (plain driver) / 2 (IH5), three installed schemas, start state d, g, g/e",
+            "9 (deviation), 4/C06"),
+    "C07": ("CrossHair/z3: symbolic schema versions through the real MetadorMeta.query/_get_raw + TOCSchemas.versions/children + PluginRef.supports against a brute-force specification; plus bounded container action sequences (C06 harness) with a reference model of attached metadata (equality of returned objects, parent views, one per schema, exact queries)",
+            "trusted: stand-in node/TOCSchemas for the kernel; substrate for sequences; bounds: versions in {0,1}^2 per ref, sequences of 2 actions on both drivers",
+            "4/C07, 9"),
     "C08": ("CrossHair/z3 symbolic execution of the real MetadorGroup wrapper methods (path guard on every protocol method, enumerated at run time), listing filters and meta-path algebra with structured symbolic reserved paths/names around a recording raw group",
             "trusted: CrossHair/z3 string theory; recording raw mocks; clause (d) (bookkeeping never disturbs user data) is outside (C06); bounds: free parts of paths <=2 chars, 2 symbolic children per listing, canonical paths <=5 chars",
             "4/C08"),
@@ -49,7 +55,6 @@ CHECKS = {
 }
 
 NA = {
-    "C06": "TOC bookkeeping is keyed by hashed UUID/pydantic objects and JSON payloads: no symbolic data can flow; a probed CrossHair run of the real container stack was unsound (70% UNKNOWN paths) and ~170x slower than native, leaving only selector enumeration",
     "C12": "serialisation round trips run inside compiled pydantic / C json / YAML / pint / isodate; symbolic values are realised at those boundaries, leaving only sampling",
     "C13": "quantifies over type objects and third-party validator/subtype semantics (pydantic, runtype); no symbolic-input dimension in repo code",
     "C17": "byte fidelity lives in numpy/h5py/hashlib/libmagic (C, I/O) and cannot be encoded; the repo-side DEL-marker rule is exercised inside C01",
